@@ -625,7 +625,7 @@ def distribution(cases, obss):
 # ------------------------------------------------------------------ generators
 
 SEQ_RULES = ("amine-double-abstraction", "suzuki-bare", "metathesis-bare", "tishchenko", "halogen-exchange-bare", "ring-symmetric",
-             "single-symmetric", "diol-mono-oxidation")
+             "single-symmetric", "diol-mono-oxidation", "halohydrin-closure", "hydrolysis-explicit", "meinwald")
 
 
 def _mk_case(pair, rng, k_sub, k_tpl, cap=12.0):
